@@ -19,7 +19,7 @@ func init() {
 			"D2 cache discipline — the extraction cache is keyed by (first location, layer index of the view being examined), written in exactly one place with the packages obtained for that key, and a cache hit is compared like a fresh extraction; " +
 			"D3 skip discipline — an iteration of the backward scan may end without comparing packages only when the file is in none of the layer's files (the sanctioned optimisation): every other way back to the loop head passes the package comparison and records the layer as the latest scanned one; the origin assigned when the package is absent is the latest scanned layer, and element 0 when no absence was found; " +
 			"D4 every earlier view is considered — the scan index starts at len-2, decreases by one and the loop is left only at index < 0, on a failed extraction, or when the origin was found; D5 the final view comes from the last chain layer and ScanContainer traces with the same chain layers. " +
-			"Added in round 2: D1 additionally: every iteration appends the record it just built for its own layer, and no iteration ends without appending. Added in round 3: D6 the search through an older view's packages stops only on an entry with equal package URL and locations. NOT decided: that the skip is semantically valid for every history, empty-layer/history alignment, re-add semantics as values (need executions over histories).",
+			"Added in round 2: D1 additionally: every iteration appends the record it just built for its own layer, and no iteration ends without appending. Added in round 3: D6 the search through an older view's packages stops only on an entry with equal package URL and locations. Added in round 8: D10 a Layer's isEmpty is exactly the flag convertV1Layer was given (history alignment). NOT decided: that the skip is semantically valid for every history, empty-layer/history alignment, re-add semantics as values (need executions over histories).",
 		Run: runC05,
 		Controls: []Mutant{
 			{Name: "command-from-last-layer", File: "artifact/image/layerscanning/trace/trace.go", Old: "			Command:     chainLayer.Layer().Command(),", New: "			Command:     chainLayers[len(chainLayers)-1].Layer().Command(),", Rule: "D1-triple", Site: "PopulateLayerDetails"},
@@ -46,6 +46,8 @@ func runC05(p *Prog, r *Report) {
 	c04OmissionsAs(p, r, "D7-view-omissions")
 	r.Rule("D8-diffid-cutset", "the diff ID is cut at the algorithm prefix, not trimmed by a character set")
 	cutsetDiscipline(p, r, "D8-diffid-cutset", tracePkg)
+	r.Rule("D10-history-alignment", "a layer is empty exactly when the image history says so")
+	layerEmptinessIsTheCallersFlag(p, r, "D10-history-alignment")
 	fn := p.Func(tracePkg, "PopulateLayerDetails")
 	if fn == nil {
 		r.Undecided("D1-triple", "anchor:PopulateLayerDetails", "-", "not found")
